@@ -228,8 +228,14 @@ def gen_op(rng, net, sm):
     return ["drop_group", rng.choice(gids)]
 
 
-def classify(op, st0, g, e):
+def classify(op, st0, g, e, what=""):
     """finding id for a set-model mismatch at (g, e) after op on st0"""
+    if "does not exist)" in what and "set_group_out_of_service raises" in what:
+        # attach_to_group onto an existing row does not check that the elements exist (groups.py:149-173 vs :187)
+        ids_ = {i for i, _ in st0["tabs"][ECODE[e]]}
+        if (op[0] == "attach" and any(x not in ids_ for x in op[3])) or \
+                any(r[0] == g and r[1] == ECODE[e] and r[3] != 2 and any(m not in ids_ for m in r[2]) for r in st0["grp"]):
+            return "C27-attach-existing-row-unchecked"
     rows = [r for r in st0["grp"] if r[0] == g and r[1] == ECODE[e]]
     if op[0] in ("detach", "drop_el") and op[1] == e and len(rows) == 1 and rows[0][3] == 2:
         names = [n for _, n in st0["tabs"][ECODE[e]]]
@@ -274,13 +280,19 @@ def _step(ctx, cases, net, sm, op):
         if g in work.group.index:
             w2 = copy.deepcopy(work)
             before = {e: w2[e].in_service.copy() for e in ETS}
-            set_group_out_of_service(w2, g)
-            for e in ETS:
-                ms = sm1.m.get((g, e), set())
-                for i in w2[e].index:
-                    exp = False if i in ms else bool(before[e].at[i])
-                    if bool(w2[e].in_service.at[i]) != exp:
-                        bad.append((g, e, "set_group_out_of_service changed/kept in_service of %s %d wrongly" % (e, i)))
+            try:
+                set_group_out_of_service(w2, g)
+                for e in ETS:
+                    ms = sm1.m.get((g, e), set())
+                    for i in w2[e].index:
+                        exp = False if i in ms else bool(before[e].at[i])
+                        if bool(w2[e].in_service.at[i]) != exp:
+                            bad.append((g, e, "set_group_out_of_service changed/kept in_service of %s %d wrongly" % (e, i)))
+            except Exception as ex:
+                missing = [(e, i) for e in ETS for i in sm1.m.get((g, e), set()) if i not in work[e].index]
+                bad.append((g, missing[0][0] if missing else ETS[0],
+                            "set_group_out_of_service raises %s%s" % (type(ex).__name__,
+                                                                     " (member %s %d does not exist)" % missing[0] if missing else "")))
     case = {"op": op, "before": st0, "exc": exc, "after": st1, "members": mem, "gids": gids, "bad": bad}
     cases.append(case)
     ctx.count("op:" + op[0])
@@ -331,7 +343,7 @@ def _judge(ctx, cases):
                     ctx.disagreement("%s: group_element_index differs: impl=%s model=%s" % (c["op"], im, mm2), brief)
         seen = set()
         for g, e, what in c["bad"]:
-            fid = classify(c["op"], c["before"], g, e)
+            fid = classify(c["op"], c["before"], g, e, what)
             if fid is not None and not ok:
                 fid = None
             key = fid or "spec"
